@@ -16,12 +16,13 @@ GradientArborescenceEmitter
 
 GradientOperatorEmitter
 * `gop new n= m= mg=0|1 sg= norm=0|1 eps= [lo=<list> hi=<list>]` (bound entries rational, `-inf`, `inf`;
-  absent = unbounded) → `ok`
+  absent = unbounded; `init=<row>;<row>…` = initial_solutions instead of x0) → `ok`
 * `gop askdqd <row>…` (perturbed parents; the model clips, stores and returns them) → `ok <row>…`
 * `gop askdqd <parent-row>…` → `ok`
 * `gop telldqd tol=<rat> <jacobian>|<norms>…` → `ok normok=0|1` | `err value`
 * `gop ask <noise-row>…` → `ok <row>…` | `err runtime|value`
 * `gop tell` → `ok`
+* `gop observe 0|1` — what `archive.empty` is from now on (sent before every ask_dqd / ask) → `ok`
 * `gop state` → `jac=0|1`
 -/
 namespace Pyribs.DqdDrv
@@ -34,7 +35,7 @@ structure St where
   os : Gop.St
 
 def init : St :=
-  ⟨⟨0, 0, 0, .filter, .basic, false, 0, .ascent 0⟩, Gae.init vzero, ⟨0, 0, false, 0, false, 0, fun _ => none, fun _ => none⟩, Gop.init⟩
+  ⟨⟨0, 0, 0, .filter, .basic, false, 0, .ascent 0⟩, Gae.init vzero, ⟨0, 0, false, 0, false, 0, fun _ => none, fun _ => none, none⟩, Gop.init⟩
 
 def showErr : Err → String
   | .runtime => "err runtime"
@@ -160,8 +161,16 @@ def gopStep (st : St) (toks : List String) : St × String :=
         | some l => parseListWith (fun t => if t = "inf" then some none else (parseRat t).map some) l
       match lo?, hi? with
       | some lo, some hi =>
-        ({ st with oc := ⟨n, m, mg = "1", sg, norm = "1", eps, fun k => lo.getD k none, fun k => hi.getD k none⟩,
-                   os := Gop.init }, "ok")
+        -- `init=<row>;<row>…` : initial_solutions (absent / `none`: the emitter was configured with x0)
+        let init? : Option (Option (List Vec)) := match kv rest "init" with
+          | none => some none
+          | some "none" => some none
+          | some l => (parseJac l).map (fun rows => some (rows.map ofList))
+        match init? with
+        | some ini =>
+          ({ st with oc := ⟨n, m, mg = "1", sg, norm = "1", eps, fun k => lo.getD k none, fun k => hi.getD k none,
+                             ini⟩, os := Gop.init }, "ok")
+        | none => (st, "bad-op")
       | _, _ => (st, "bad-op")
     | _, _, _, _, _, _ => (st, "bad-op")
   | "askdqd" :: rows =>
@@ -192,6 +201,7 @@ def gopStep (st : St) (toks : List String) : St × String :=
       | _ => (st, "bad-op")
     | none => (st, "bad-op")
   | ["tell"] => ({ st with os := (Gop.step st.oc st.os .tell).1 }, "ok")
+  | ["observe", b] => ({ st with os := (Gop.step st.oc st.os (.observe (b = "1"))).1 }, "ok")
   | ["state"] => (st, s!"jac={showBool st.os.jac.isSome}")
   | _ => (st, "bad-op")
 
